@@ -344,6 +344,21 @@ func runC08(c *Ctx) {
 			c.R.Fail("undetected:"+e.kind+":"+cls, fmt.Sprintf("%s: %s at %s changes the document but the envelope still validates", j.it.Rel, e.kind, e.path), wit)
 			return
 		}
+		// the same edited bytes decoded into an envelope value that already held the
+		// original (a decoder streaming envelopes into one variable, a pooled value):
+		// stale members must not survive the second load
+		if reused, rerr := gx.ParseEnvelope(j.it.Data); rerr == nil {
+			var uerr, v2 error
+			if p2, _ := Safely(func() {
+				uerr = json.Unmarshal(b, reused)
+				if uerr == nil {
+					v2 = reused.Validate()
+				}
+			}); p2 == nil && uerr == nil && v2 == nil {
+				c.R.Fail("undetected:reused-target:"+e.kind, fmt.Sprintf("%s: %s at %s is detected on a fresh decode but not when the edited envelope is decoded into a value that held the original", j.it.Rel, e.kind, e.path), wit)
+			}
+			c.R.Count("reused_target_decodes", 1)
+		}
 		key := gx.ErrKey(verr)
 		c.R.Count("detected_with_key:"+key, 1)
 		if key != "digest" {
